@@ -8,7 +8,7 @@ ap.add_argument("--tier", default="quick")
 ap.add_argument("--props", default="")
 ap.add_argument("--worktree", default="", help="apply the changes in this scratch worktree of /repo (created and removed here) instead of /repo itself")
 a = ap.parse_args()
-V = "/verif"
+V = os.path.dirname(os.path.dirname(os.path.abspath(__file__)))
 ids = a.ids or sorted(os.listdir(f"{V}/seeded"))
 REPO = "/repo"
 if a.worktree:
